@@ -409,7 +409,33 @@ def h_url_fields(w: int, h: int, name_kind: int, body_idx: int, allow_failure: b
     finally:
         H, W = saved
     url2 = serialize_problem_as_url(COMB, CODEC, h, w, v)
-    return deserialize_problem_as_url(COMB, url2, allowed_puzzles=CODEC) == v
+    if deserialize_problem_as_url(COMB, url2, allowed_puzzles=CODEC) != v:
+        return False
+    # the puzzle module's own entry points: what deserialize_<puzzle> hands out, serialize_<puzzle> accepts and reproduces
+    return _module_api_roundtrip(h, w, body_idx)
+
+
+def _module_api_roundtrip(h: int, w: int, body_idx: int) -> bool:
+    import importlib
+    mod = importlib.import_module("cspuz.puzzle." + CODEC)
+    ser, des = getattr(mod, "serialize_" + CODEC, None), getattr(mod, "deserialize_" + CODEC, None)
+    if ser is None or des is None:
+        return True
+    urlname = "slither" if CODEC == "slitherlink" else CODEC
+    url = "https://puzz.link/p?" + urlname + "/" + str(w) + "/" + str(h) + "/" + URL_BODIES[CODEC][body_idx]
+    try:
+        got = des(url)
+    except ValueError:
+        return True
+    if got is None:
+        return True
+    if CODEC in ("lits", "norinori"):
+        again = ser(got[0], got[1], got[2])
+    elif CODEC == "heyawake":
+        again = ser(got[0], got[1], *got[2])
+    else:
+        again = ser(got)
+    return des(again) == got
 
 
 def h_url_any(url: str, allow_failure: bool) -> bool:
